@@ -172,6 +172,9 @@ inductive XChoice
   | reply (i : Nat)                      -- deliver pool[i] (again) on the misc channel
   | other (chan : Nat) (data : Bytes)    -- any packet on another channel of the param port (e.g. stale TOC replies)
   | worker                               -- the fetcher's thread runs one loop iteration (if enabled)
+  | misc (data : Bytes)                  -- any other packet on the misc channel (first byte ≠ 02): an unsolicited
+                                         -- value-updated notification `01 id16 value` for the awaited or any other
+                                         -- parameter, a persistent-state / default-value answer, an empty packet
   | disconnect                           -- the link is lost or closed: `cf.disconnected` is called
   deriving Repr, DecidableEq
 
@@ -190,6 +193,7 @@ def XSys.step (persistent : Nat → Bool) (s : XSys) : XChoice → XSys
     match s.x.worker with
     | some (x', r) => { x := x', pool := s.pool ++ (extReply persistent r).toList, sent := s.sent ++ [r] }
     | none => s
+  | .misc data => if data.head? = some 2 then s else s.deliver 3 data
   | .disconnect => { s with x := s.x.disconnect }
 
 def XSys.run (persistent : Nat → Bool) (s : XSys) (cs : List XChoice) : XSys :=
